@@ -284,9 +284,11 @@ func (s *vfSM) checkIter(vs *[]*vfViol, stopAfter int) {
 		}
 	}
 	if stopAfter == 0 || len(got) < stopAfter {
+		imk := s.mapKeys()
 		for k, e := range s.resident {
 			ok, boundary := s.served(e, now)
-			if ok && !boundary && !seen[e.tok] && !s.tainted[k] {
+			kh, _ := s.c.keyToHash(k)
+			if ok && !boundary && !seen[e.tok] && !s.tainted[k] && imk[kh] == e.tok { // (the map really holds it)
 				owner := "C13"
 				if !e.exp.IsZero() {
 					owner = "C07"
@@ -1097,7 +1099,13 @@ func (s *vfSM) exec(op *vfOp) (vs []*vfViol) {
 			s.doSweep(nil, 0, &vs)
 		}
 		lim := time.Now().Add(-2 * time.Duration(s.cfg.BucketSecs) * time.Second)
+		qmk, qpk := s.mapKeys(), s.policyKeys()
 		for k, e := range s.resident {
+			kh, _ := s.c.keyToHash(k)
+			_, charged := qpk[kh]
+			if held := qmk[kh] == e.tok; !held && !charged {
+				continue // neither held nor charged: whatever the reference believes, nothing is left to reclaim
+			}
 			if !e.exp.IsZero() && e.exp.Before(lim) {
 				s.add(&vs, vfV("C14", "expired-entry-not-reclaimed", "value %d (key %d) expired at %v and is still held (and charged) at %v after two sweeps with an idle applier", e.tok, k, e.exp.Format("15:04:05"), time.Now().Format("15:04:05")))
 			}
